@@ -169,7 +169,7 @@ _ONEWAY = ("file/directory clashes both ways, destination-only directories with 
            "'?' cases against multi-byte names, an induced transport failure at the remote delete, a dangling link and a link loop in source and/or destination; verdicts never rest on printed "
            "counters when they cannot be read (inode-aware snapshots)")
 _HUB = ("model programs writeback / delwb / casrace3 (three servers), alias spellings of one file, seeded request programs under "
-        "random and sequential orders, corpus programs putdir / putunder / lockfile / list_race / lock_identity, contents that end in zero "
+        "random and sequential orders, corpus programs putdir / putunder / confname (a client writing to a conflict-copy's name) / lockfile / list_race / lock_identity, contents that end in zero "
         "bytes or are exactly one 256 KiB block, truncated reply streams recorded as short answers, mismatched-Put sessions")
 ADDENDA = {
     "C02": _BISYNC, "C06": _BISYNC, "C07": _BISYNC,
